@@ -165,6 +165,13 @@ theorem rejected_inert (cfg : Cfg) (c : Conn) (p : Pkt) (h : c.phase = .rejected
   rw [this]
   exact ⟨rejectedStep_phase c p h, rejectedStep_effs c p⟩
 
+/-- …and the server ends the connection itself: once writeLoop has flushed the failing CONNACK it closes the socket
+    (`hangup`, fix 53130f4), which takes a rejected connection to `closed` with no other effect. -/
+theorem rejected_closes (cfg : Cfg) (c : Conn) (h : c.phase = .rejected) :
+    step cfg c .hangup = ({ c with phase := .closed }, [.closeSocket]) := by
+  have : step cfg c .hangup = rejectedStep c .hangup := by simp [step, h]
+  rw [this, rejected_hangup c h]
+
 /-- Whole packet sequences: whatever a peer sends on a connection, as long as the connection does not end up
     `accepted`, no effect of the whole run touches sessions, subscriptions, retained messages or other clients. -/
 theorem run_inert (cfg : Cfg) (ps : List Pkt) (c : Conn) (hfin : (run cfg c ps).1.phase ≠ .accepted) :
@@ -201,6 +208,7 @@ example :
     (run cfg {} [.connect good]).1.phase = .accepted ∧ (run cfg {} [.connect good]).2.any Eff.touchesBroker = true ∧
     (run cfg {} [.connect bad, .publish 1, .other, .connect good]).1.phase = .rejected ∧
     (run cfg {} [.connect bad, .publish 1, .other, .connect good]).2.any Eff.touchesBroker = false ∧
+    (run cfg {} [.connect bad, .publish 1, .connect good, .hangup]).1.phase = .closed ∧
     (run cfg {} [.publish 0]).1.phase = .rejected := by
   decide
 
